@@ -318,7 +318,20 @@ func (c *channel) reconnect(maxRetries float64) {
 	for {
 		var err error
 		verifPoint("rec.beforeLock", c)
-		c.streamMut.Lock()
+		// The receiver holds the read lock while it waits for messages. If it has
+		// already re-established the stream, waiting for the write lock here would
+		// block until the next message arrives (possibly for ever, since the sender
+		// is the one waiting). Thus, give up as soon as the stream is no longer broken.
+		for !c.streamMut.TryLock() {
+			if !c.streamBroken.get() {
+				return
+			}
+			select {
+			case <-time.After(time.Millisecond):
+			case <-c.parentCtx.Done():
+				return
+			}
+		}
 		verifPoint("rec.locked", c)
 		// check if stream is already up
 		if !c.streamBroken.get() {
